@@ -4,6 +4,7 @@ package httpgrpc
 
 import (
 	"context"
+	"io"
 	"net/http"
 	"path"
 
@@ -22,14 +23,34 @@ import (
 // without running a handler.
 func Verif_C12_HTTP() {
 	hooks := &verifHooks{}
-	base := "/" + zv.String("base", zv.Param("basecap", 2))
-	name := zv.String("method", zv.Param("namecap", 4))
-	viaHelper := zv.Choose("via-HandleServices", 2) == 1
+	// scenario 0: any base path; 1 (base "/"): service b is registered on the Server
+	// after it has served its first request; 2 (base "/"): the name is used through
+	// the streaming entry point (NewStream, no message sent)
+	scenario := zv.Choose("scenario", 3)
+	base := "/"
+	if scenario == 0 {
+		base = "/" + zv.String("base", zv.Param("basecap", 2))
+	}
+	var name string
+	if scenario == 0 {
+		name = zv.String("method", zv.Param("namecap", 4))
+	} else {
+		// (the name space is explored in scenario 0; here one name per kind)
+		name = []string{"/a/U", "/b/U", "b/U", "/a/S", "/b/S", "/b/R", "/b/C", "/b/X", "/c/U"}[zv.Choose("method-name", 9)]
+	}
+	viaHelper := scenario != 1 && zv.Choose("via-HandleServices", 2) == 1
 
 	var handler http.Handler
 	if !viaHelper {
 		srv := NewServer(WithBasePath(base))
 		srv.RegisterService(zzfix.Desc("a"), &zzfix.Srv{Name: "a", Hooks: hooks})
+		if scenario == 1 {
+			warm := &verifTransport{handler: srv, remoteAddr: "1.2.3.4:5", inline: true}
+			wch := &Channel{Transport: warm, BaseURL: verifURL("http", "h", base)}
+			werr := wch.Invoke(context.Background(), "/a/U", &verifMsg{}, &verifMsg{})
+			zv.Assert(werr == nil && len(hooks.Ran) == 1, "first-request-served")
+			hooks.Ran = nil
+		}
 		srv.RegisterService(zzfix.Desc("b"), &zzfix.Srv{Name: "b", Hooks: hooks})
 		handler = srv
 	} else {
@@ -43,6 +64,10 @@ func Verif_C12_HTTP() {
 	tr := &verifTransport{handler: handler, remoteAddr: "1.2.3.4:5", inline: true}
 	ch := &Channel{Transport: tr, BaseURL: verifURL("http", "h", base)}
 
+	if scenario == 2 {
+		verifC12StreamEntry(hooks, handler, base, name)
+		return
+	}
 	err := ch.Invoke(context.Background(), name, &verifMsg{}, &verifMsg{})
 
 	// reference: the request path the client must produce for this name, compared
@@ -79,5 +104,43 @@ func Verif_C12_HTTP() {
 				zv.Assert(st.Code() == codes.NotFound, "unknown-name-gives-NotFound")
 			}
 		}
+	}
+}
+
+// verifC12StreamEntry: the name goes through NewStream (bidi descriptor), the
+// client sends nothing and half-closes. A handler runs iff the name is that of a
+// registered streaming method, and then it is that method's handler; in
+// particular a unary method's handler never runs for a streaming request.
+func verifC12StreamEntry(hooks *verifHooks, handler http.Handler, base, name string) {
+	st := &verifStreamTransport{handler: handler, remoteAddr: "1.2.3.4:5"}
+	ch := &Channel{Transport: st, BaseURL: verifURL("http", "h", base)}
+	ctx, cancel := context.WithCancel(context.Background())
+	defer cancel()
+	cs, err := ch.NewStream(ctx, zzfix.StreamDescOf("S"), name)
+	if err == nil {
+		cs.CloseSend()
+		err = cs.RecvMsg(&verifMsg{})
+		if err == io.EOF {
+			err = nil
+		}
+	}
+	cleaned := path.Join(base, name)
+	under := func(tag string) string { return path.Join(base, tag) }
+	zv.Assert(len(hooks.Ran) <= 1, "at-most-one-handler-runs")
+	if len(hooks.Ran) == 1 {
+		zv.Reach("stream-handler-ran")
+		tag := hooks.Ran[0]
+		zv.Assert(cleaned == under(tag), "handler-ran-only-for-its-own-name")
+		zv.Assert(tag != "a/U" && tag != "b/U", "stream-entry-never-runs-a-unary-handler")
+		return
+	}
+	zv.Reach("stream-entry-no-handler")
+	for _, tag := range []string{"a/S", "a/C", "a/R", "b/S", "b/C", "b/R"} {
+		zv.Assert(cleaned != under(tag), "registered-name-runs-its-handler")
+	}
+	zv.Assert(err != nil, "unknown-name-fails")
+	if err != nil {
+		_, ok := status.FromError(err)
+		zv.Assert(ok, "unknown-name-gives-status-error")
 	}
 }
